@@ -85,6 +85,7 @@ def run(fx, R, tier):
     R.floor('B3', 4)
     R.floor('B5', 8)
     check_seeds_and_stats(fx, R)
+    check_constructor_reaches_compute(fx, R)
     check_containers(fx, R)
     check_aabb(fx, R)
     check_obb(fx, R)
@@ -268,11 +269,13 @@ def check_seeds_and_stats(fx, R):
         R.form(('+=', 'this.pointSetMean_', 'point') in ex and any(m(('/=', 'this.pointSetMean_', '$D'), s, {}) and 'size' in str(s) and 'points' in str(s) for s in ex),
                 'B7', '%s::compute:mean' % cname, 'mean is not (sum of the points)/points.size(): %s' % [s for s in ex if 'pointSetMean_' in str(s)],
                 'mean = sum / size', fx.rel(f['loc']), 'E-ALG')
-        R.form(('=', 'this.scale_', ('/', 1, ('.maxCoeff', ('-', 'this.pointSetMax_', 'this.pointSetMin_')))) in ex, 'B7', '%s::compute:scale' % cname,
+        sv = scale_value(fx, f, cname)
+        R.form(('=', 'this.scale_', ('/', 1, ('.maxCoeff', ('-', 'this.pointSetMax_', 'this.pointSetMin_')))) in ex or (True if sv[0] == 'holds' else None), 'B7', '%s::compute:scale' % cname,
                 'scale is not 1/maxCoeff(max-min): %s' % [s for s in ex if 'scale_' in str(s) and s[0] == '='], 'scale = 1/maxCoeff(max - min)', fx.rel(f['loc']), 'E-ALG',
                 facts=[head_fact(f, cname)] + [(('=', 'this.scale_', ('/', 1, ('.minCoeff', ('-', 'this.pointSetMax_', 'this.pointSetMin_')))) in ex,
                         'scale is 1/minCoeff(max - min): the reciprocal of the SMALLEST side, not of the largest one (the preconditioned set then exceeds the unit box; a flat set divides by zero)'),
-                       (('=', 'this.scale_', ('.maxCoeff', ('-', 'this.pointSetMax_', 'this.pointSetMin_'))) in ex, 'scale is the largest side itself, not its reciprocal')])
+                       (('=', 'this.scale_', ('.maxCoeff', ('-', 'this.pointSetMax_', 'this.pointSetMin_'))) in ex, 'scale is the largest side itself, not its reciprocal'),
+                       (sv[0] == 'violated', sv[1])])
         # order: mean/scale computed after the loop, min/max reset before it
         for g, nm in (('getPointSetMin', 'this.pointSetMin_'), ('getPointSetMax', 'this.pointSetMax_'), ('getPointSetMean', 'this.pointSetMean_'), ('getScale', 'this.scale_')):
             gf = fx.one(f['cls'] + '::' + g)
@@ -281,6 +284,74 @@ def check_seeds_and_stats(fx, R):
                 continue
             R.used(gf)
             R.form(returns(gf) == [nm], 'B7', '%s::%s' % (cname, g), '%s returns %s, not %s' % (g, returns(gf), nm), 'returns ' + nm, fx.rel(gf['loc']), 'E-SIB')
+
+
+def scale_value(fx, f, cname):
+    """Value rule for the scale: the statements of compute() AFTER the point loop are evaluated (E-STEP, one generic coordinate: a reduction over the coordinates is the identity there) on witness extrema
+    whose side is ordinary, tiny (below the machine epsilon of the scalar type) and huge; the quantifier names every non-empty set, whatever its size.  ('holds'|'violated'|'undecided', text)."""
+    from .. import mini
+    top = f['body'].get('s') or []
+    pos = [i for i, x in enumerate(top) if x.get('k') in ('For', 'RangeFor', 'While')]
+    if not pos:
+        return ('undecided', 'no point loop at the top level of compute()')
+    tail = top[pos[-1] + 1:]
+    stored = [deep_unwrap(sx(x['e'])) for y in tail for x in walk(y) if x.get('k') == 'Expr']
+    mentions = str([s_ for s_ in stored if 'scale_' in str(s_)] + [deep_unwrap(sx(v['init'])) for y in tail for x in walk(y) if x.get('k') == 'Decl' for v in x['vars'] if v.get('init') is not None])
+    if mentions.count("'.maxCoeff'") != 1 or "'.minCoeff'" in mentions or 'pointSetMax_' not in mentions or 'pointSetMin_' not in mentions:
+        return ('undecided', 'the reduction over the sides is not one maxCoeff over (max - min)')
+    flt = 'float' in f['cls']
+    wit = [(2.0, 4.0), (-7.0, -3.0), (-0.5, 0.75), (0.0, 1e-3), (1.0, 1.0 + 2.0 ** -20), (-1e6, 1e6)]
+    wit += [(-3e-8, 2e-8), (0.0, 1e-12), (-1e-30, 1e-30)] if flt else [(-1e-16, 1e-16), (0.0, 1e-17), (-1e-200, 1e-200)]
+    for (mn, mx) in wit:
+        env = {'this.pointSetMin_': mn, 'this.pointSetMax_': mx, 'points': 0.5 * (mn + mx), 'this.scale_': float('nan')}
+        st = mini.Step(deep_unwrap)
+        try:
+            for y in tail:
+                st.run(y, env, ignore=('this.pointSetMean_', 'this.translation_'))
+        except mini.Unsupported as e:
+            return ('undecided', 'statements after the point loop not interpretable on scalars: %s' % e)
+        except mini.Returned:
+            pass
+        got, want = env.get('this.scale_'), 1.0 / (mx - mn)
+        if not (isinstance(got, (int, float)) and got == got and abs(got - want) <= 1e-9 * abs(want)):
+            return ('violated', 'for a set whose largest side is %g (extrema %g and %g) compute() reports the scale %s; the reciprocal of the largest side is %g (every non-empty set is inside the quantifier, '
+                    'whatever its size: the preconditioned points of such a set are then not scaled into the unit box)' % (mx - mn, mn, mx, got, want))
+    return ('holds', '%d witness extrema' % len(wit))
+
+
+def check_constructor_reaches_compute(fx, R):
+    """B7: the constructor that takes a point set must hand EVERY non-empty set (1..1000 points) to compute(); its control flow is evaluated (E-STEP) for the set sizes of the quantifier."""
+    from .. import mini
+    ctors = [f for f in fx.functions.values() if f.get('ctor') and (f.get('cls') or '').startswith('romea::core::PointSetPreconditioner<') and len(f['params']) == 1 and not f.get('copyctor')
+             and 'std::vector<' in f['sig']]
+    if not ctors:
+        R.undecided('B7', 'PointSetPreconditioner(points)', 'constructor taking a point set not found')
+        return
+    for f in sorted(ctors, key=lambda f: f['q']):
+        R.used(f)
+        cname = short_fn(f['cls'])
+        pn = f['params'][0]['name']
+        missed, why = [], None
+        for n in (1, 2, 3, 1000):
+            reached = []
+            st = mini.Step(deep_unwrap)
+            st.hooks['.compute'] = lambda t, env, reached=reached: reached.append(t) or 0
+            env = {('.size', pn): n, ('.empty', pn): False, pn: 0.0}
+            try:
+                st.call(f['body'], env)
+            except mini.Unsupported as e:
+                why = str(e)
+                break
+            if not any(len(t) >= 3 and t[2] == pn for t in reached):
+                missed.append(n)
+        inst = '%s(points):reaches-compute' % cname
+        if why:
+            R.undecided('B7', inst, 'constructor body not interpretable: %s' % why, fx.rel(f['loc']), 'E-STEP')
+        elif missed:
+            R.violated('B7', 'PointSetPreconditioner(points):reaches-compute', 'for a set of %s point(s) the constructor returns without handing the set to compute(): minimum, maximum, mean and scale keep the values of the default '
+                       'constructor instead of the extrema and centroid of the set (sets of 1..1000 points are inside the quantifier) [%s]' % (', '.join(map(str, missed)), cname), fx.rel(f['loc']), 'E-STEP')
+        else:
+            R.holds('B7', inst, 'compute(%s) is reached for sets of 1, 2, 3 and 1000 points' % pn, fx.rel(f['loc']), 'E-STEP')
 
 
 def seed_node(f, varname):
